@@ -53,7 +53,7 @@ def confirm(d):
         if rc:
             res["error"] = out
             return res
-        demo_rel = meta["demo_path_in_repo"]
+        demo_rel = meta["demo_path_in_repo"].split(",")[0].strip()
         demo_dir = os.path.join(d, "demo")
         files = [f for f in os.listdir(demo_dir)]
         # demo files go next to demo_path_in_repo (single file) or keep relative layout
@@ -65,8 +65,10 @@ def confirm(d):
                 shutil.copytree(src, os.path.join(target_dir, f), dirs_exist_ok=True)
             else:
                 shutil.copy(src, os.path.join(target_dir, f))
-        cmd = meta["demo_cmd"].replace("<repo>", wt).replace("/tmp/mut/" + meta["property"], wt)
-        rc, out = sh(cmd, wt)
+        cmd = re.sub(r"/tmp/mut/(?:R2)?" + meta["property"] + r"\b", wt, meta["demo_cmd"].replace("<repo>", wt))
+        # some demo commands copy their files themselves from a relative demo/ directory
+        demo_cwd = d if re.search(r"(^|[;& ])cp demo/", cmd) else wt
+        rc, out = sh(cmd, demo_cwd)
         res["demo_passes_without_change"] = rc == 0
         if rc != 0:
             res["demo_out_without"] = out[-1500:]
@@ -77,7 +79,7 @@ def confirm(d):
             return res
         rc, out = sh("go build ./... && (cd internal/dnsserver && go build ./...)", wt)
         res["builds"] = rc == 0
-        rc, out = sh(cmd, wt)
+        rc, out = sh(cmd, demo_cwd)
         res["demo_fails_with_change"] = rc != 0
         res["demo_out_with_change_tail"] = out[-600:]
         # remove demo before the suite so that the suite is the UNEDITED one
